@@ -336,7 +336,9 @@ static int run_event(const char *ev) {
   if (ev[0] == 'd' && sscanf(ev + 1, "%d", &i) == 1 && i >= 0 && i < NRES) {
     tok[0] = 0xD0; tok[1] = (uint8_t)i;
     n = mk_req(msg, sizeof msg, COAP_REQUEST_CODE_DELETE, tok, 2, res_name[i], -1, NULL);
-    deliver(0, msg, n); return 1;
+    deliver(0, msg, n);
+    nsent[i] = 0;      /* a resource created later under the same name is a new resource: its Observe values start afresh */
+    return 1;
   }
   if ((ev[0] == 'a' || ev[0] == 'x') && sscanf(ev + 1, "%d.%d.%d", &c, &i, &v) == 3 && c >= 0 && c < NCLI && i >= 0 &&
       i < NRES && v >= 0 && v < 10) {
@@ -592,6 +594,7 @@ static char *crash_state(const char *ev, long k, int *completed) {
       close(ps[0]);
       if (chdir(sub)) _exit(5);
       while (sscanf(s, "%d %u", &i, &v) == 2) { note_sent(i, v); s = strchr(s, '\n'); if (!s) break; s++; }
+      if (*completed && ev[0] == 'd' && sscanf(ev + 1, "%d", &i) == 1 && i >= 0 && i < NRES) nsent[i] = 0;
       sb_len = 0; sput("");
       dump_dyn(); sput(";"); dump_obs(); sput(";"); dump_cnt(); sput(";"); dump_tmp();
       trk = 0; kill_at = 0;
